@@ -204,6 +204,12 @@ def transform_affine(rng, scn):
             continue        # constant column: equal edge knots, excluded by the guard of C12_affine_partial
         a = float(10 ** rng.uniform(-6, 6))
         r = rng.random()
+        if rng.random() < 0.25:
+            # extreme units (a power of two, so the rescaled column is exact): a feature range of 1e-15 .. 1e12 is still a range, not a constant
+            a = 2.0 ** rng.randint(-50, 40)
+            b = 0.0 if r < 0.5 else float(rng.choice([-1, 1]) * a * rngx * rng.randint(1, 8))
+            maps[str(f_)] = [a, b]
+            continue
         if r < 0.15:
             b = 0.0
         elif r < 0.55:
